@@ -825,4 +825,87 @@ theorem reset_fresh (qs : List Query) (m : Nat) (a : Agg) (h : CoreEq (Agg.new q
   rfl
 
 end Hamlet
+namespace Hamlet
+
+theorem idle_new (s : Step) (ss : Query) (m : Nat) : Idle (Agg.new [s :: ss] m) := by
+  refine ⟨?_, ?_⟩
+  · intro e he
+    simp [Agg.new, List.range_succ] at he
+    subst he
+    exact ⟨rfl, rfl, rfl⟩
+  · intro f hf
+    simp [Agg.new, List.range_succ] at hf
+    subst hf; rfl
+
+theorem noStart_new (s : Step) (ss : Query) (m : Nat) (t : Ty) (h : t ≠ s.ty) : NoStart (Agg.new [s :: ss] m) t := by
+  intro e he
+  simp [Agg.new, List.range_succ] at he
+  subst he
+  exact transition_none _ s.ty t (tinv_build s ss) h
+
+/-- several windows, one query, no event of its first type in any window: no report in any window -/
+theorem runWindows_no_start (s : Step) (ss : Query) (m : Nat) (hm : 2 ≤ m) (wins : List (List Ty))
+    (h : ∀ w ∈ wins, ∀ t ∈ w, t ≠ s.ty) : runWindows [s :: ss] m wins = ([], []) := by
+  unfold runWindows
+  have hlen : (Agg.new [s :: ss] m).regs.length < (Agg.new [s :: ss] m).minQueries := by
+    simp [Agg.new]; omega
+  have key : ∀ (l : List (List Ty × Nat)) (off : Nat), (∀ p ∈ l, ∀ t ∈ p.1, t ≠ s.ty) →
+      l.foldl (fun (acc : Agg × Nat × List (Nat × Nat × Nat) × List (Nat × Nat × Nat)) (x : List Ty × Nat) =>
+        match x with
+        | (evs, w) =>
+          let (a, off, inc, fl) := acc
+          let r := (evs.zipIdx off).foldl (fun (acc : Agg × List (Nat × Nat × Nat)) (x : Ty × Nat) =>
+            match x with
+            | (ty, k) =>
+              let (a', reps) := process acc.1 ty
+              (a', acc.2 ++ reps.map fun (q, v) => (k, q, v))) (a, inc)
+          (reset r.1, off + evs.length, r.2, fl ++ (flush r.1).map fun (q, v) => (w, q, v)))
+        (Agg.new [s :: ss] m, off, [], []) =
+      (Agg.new [s :: ss] m, off + (l.map (·.1.length)).sum, [], []) := by
+    intro l
+    induction l with
+    | nil => intro off _; simp
+    | cons p ps ih =>
+      intro off hp
+      obtain ⟨evs, w⟩ := p
+      have hn : ∀ x ∈ evs.zipIdx off, NoStart (Agg.new [s :: ss] m) x.1 := by
+        intro x hx
+        apply noStart_new
+        apply hp (evs, w) (by simp) x.1
+        have := List.mem_map_of_mem (f := Prod.fst) hx
+        simpa using this
+      obtain ⟨a', hf, hs⟩ := run_fold_idle (evs.zipIdx off) (Agg.new [s :: ss] m) (idle_new s ss m) hn hlen
+      have hlen' : a'.regs.length < a'.minQueries := by rw [← hs.2.1, ← hs.2.2.1]; exact hlen
+      have hfl : flush a' = [] := flush_idle a' (idle_of_same hs (idle_new s ss m)) hlen'
+      have hre : reset a' = Agg.new [s :: ss] m := reset_fresh _ m a' ⟨hs.1, hs.2.1, hs.2.2.1⟩
+      simp only [List.foldl_cons]
+      have hf' : (evs.zipIdx off).foldl (fun (acc : Agg × List (Nat × Nat × Nat)) (x : Ty × Nat) =>
+            match x with
+            | (ty, k) =>
+              let (a', reps) := process acc.1 ty
+              (a', acc.2 ++ reps.map fun (q, v) => (k, q, v))) (Agg.new [s :: ss] m, []) = (a', []) := hf
+      simp only [hf', hfl, hre, List.map_nil, List.append_nil]
+      rw [ih (off + evs.length) (fun p' hp' => hp p' (by simp [hp']))]
+      simp [Nat.add_assoc]
+  have hk := key wins.zipIdx 0 (by
+    intro p hp t ht
+    have : p.1 ∈ wins := by
+      have := List.mem_map_of_mem (f := Prod.fst) hp
+      simpa using this
+    exact h p.1 this t ht)
+  have hk' : wins.zipIdx.foldl
+      (fun (acc : Agg × Nat × List (Nat × Nat × Nat) × List (Nat × Nat × Nat)) (x : List Ty × Nat) =>
+        match x with
+        | (evs, w) =>
+          let (a, off, inc, fl) := acc
+          let r := (evs.zipIdx off).foldl (fun (acc : Agg × List (Nat × Nat × Nat)) (x : Ty × Nat) =>
+            match x with
+            | (ty, k) =>
+              let (a', reps) := process acc.1 ty
+              (a', acc.2 ++ reps.map fun (q, v) => (k, q, v))) (a, inc)
+          (reset r.1, off + evs.length, r.2, fl ++ (flush r.1).map fun (q, v) => (w, q, v)))
+      (Agg.new [s :: ss] m, 0, [], []) = _ := hk
+  simp only [hk']
+
+end Hamlet
 end Varpulis.Trend
